@@ -46,6 +46,28 @@ SPEC.update({k: v for k, v in [
 ]})
 
 
+# further items of the "ALL:" properties: theorems stated inside a Section (4th element = the closed statement, as
+# it reads after End: section variables quantified and passed to the section's definitions) and key lemmas that get
+# the property's prefix
+EXTRA = {
+ "C04": [("C04", "C04_preserved", "C04_preserved",
+          ": forall li d addr g ex fx c now branch st ev st' outs,\n"
+          "  proxy_step fx c now branch st ev = Ok (st', outs) ->\n"
+          "  ev_ok li d addr branch ev -> now < ex -> pinned li d addr g ex st -> pinned li d addr g ex st'."),
+         ("C04", "dialog_of_symmetric", "C04_dialog_of_symmetric"), ("C04", "bref_round_trip", "C04_bref_round_trip"),
+         ("C04", "key_neq_dialog", "C04_key_neq_dialog")],
+ "C12": [("C12", "C12_preserved", "C12_preserved",
+          ": forall li K c ex fx cf now branch st ev st' outs,\n"
+          "  proxy_step fx cf now branch st ev = Ok (st', outs) ->\n"
+          "  ev_away li K c fx cf now branch st ev -> now / second <= ex ->\n"
+          "  held li K c ex st -> held li K c ex st'."),
+         ("C12", "C12_preserved_history", "C12_preserved_history",
+          ": forall li K c ex fx cf h st st' outss,\n"
+          "  run fx cf st h = Ok (st', outss) -> hist_away li K c ex fx cf st h -> held li K c ex st -> held li K c ex st'."),
+         ("C12", "full_addr_inj_tid", "C12_full_addr_inj_tid"), ("C12", "tid_inj", "C12_tid_inj"),
+         ("C12", "keys_differ", "C12_keys_differ"), ("C12", "accept_key_differs", "C12_accept_key_differs")],
+}
+
 # the proofs file states its theorems with this scope on top
 SCOPE = {"C08": ["Local Close Scope Z_scope."], "C17": ["Local Close Scope Z_scope."]}
 
@@ -66,14 +88,15 @@ def names_with_prefix(mod, prefix):
 def block(pid):
     mods, items = SPEC[pid]
     if isinstance(items, str):
-        items = names_with_prefix(mods[-1], items.split(":")[1])
+        items = names_with_prefix(mods[-1], items.split(":")[1]) + EXTRA.get(pid, [])
     out = ["", "(* ------------------------------------------------------------------ %s *)" % pid,
            "From Model Require Import Bytes Wire Uri Hdr Message Msg StaticRoute RoundRobin Pins Proxy RunProxy SpecC14 SpecProxy SpecProxy2.",
            "From Model.proofs Require %s." % " ".join(mods), "Section P_%s." % pid, "Import %s." % " ".join(mods)] + SCOPE.get(pid, [])
     for it in items:
         mod, name = it[0], it[1]
         new = it[2] if len(it) > 2 else name
-        st = statement(mod, name)
+        # a theorem stated inside a Section is restated here in its closed form (4th element); "exact" checks it
+        st = it[3] if len(it) > 3 else statement(mod, name)
         if not st.endswith("."):
             raise SystemExit("odd statement end for %s" % name)
         out.append("Theorem %s %s" % (new, st))
